@@ -93,6 +93,9 @@ func cmdWorker(args []string) int {
 			p.RunRace(c)
 		}
 	} else {
+		if !c.Replay && core.Prelude != nil && *batch%4 == 3 {
+			core.Prelude(*batch)
+		}
 		p.Run(c)
 		if core.RaceEnabled && c.Replay && p.RunRace != nil {
 			p.RunRace(c)
